@@ -670,16 +670,34 @@ impl Pos {
 /// Bounded AND/OR mate solver. `budget` is decremented per node; None = budget exhausted (unknown).
 pub struct Solver {
     pub budget: i64,
+    /// optional memo of decided (position, n) queries; None = plain AND/OR search
+    pub memo: Option<std::collections::HashMap<(Pos, u32), bool>>,
 }
 impl Solver {
     pub fn new(budget: i64) -> Solver {
-        Solver { budget }
+        Solver { budget, memo: None }
+    }
+    /// with a memo table: repeated and transposing queries are answered once (small endgames)
+    pub fn with_memo(budget: i64) -> Solver {
+        Solver { budget, memo: Some(std::collections::HashMap::new()) }
     }
     /// side to move can force checkmate in at most `n` of its own moves
     pub fn mate_in(&mut self, p: &Pos, n: u32) -> Option<bool> {
         if n == 0 {
             return Some(false);
         }
+        if let Some(m) = &self.memo {
+            if let Some(&v) = m.get(&(p.clone(), n)) {
+                return Some(v);
+            }
+        }
+        let r = self.mate_in_uncached(p, n);
+        if let (Some(v), Some(m)) = (r, self.memo.as_mut()) {
+            m.insert((p.clone(), n), v);
+        }
+        r
+    }
+    fn mate_in_uncached(&mut self, p: &Pos, n: u32) -> Option<bool> {
         self.budget -= 1;
         if self.budget < 0 {
             return None;
